@@ -7,6 +7,7 @@ import (
 	"os"
 	"path/filepath"
 	"regexp"
+	"runtime"
 	"sort"
 	"strings"
 	"sync"
@@ -93,6 +94,9 @@ func openRaceTarget(t *Trace, dir string, n int) (*raceTarget, error) {
 		} else {
 			dw = deferred.NewDeferredCarWriterForPath(path, cfg.RootCids(), cfg.Options()...)
 		}
+		for i := 0; i < t.Sched.Callbacks; i++ {
+			dw.OnPut(func(int) { runtime.Gosched() }, false)
+		}
 		rt.put = func(b Blk) error { return dw.Put(bg, b.Cid.KeyString(), b.Data) }
 		rt.has = func(c cid.Cid) (bool, error) { return dw.Has(bg, c.KeyString()) }
 		rt.finalize = dw.Close
@@ -103,9 +107,10 @@ func openRaceTarget(t *Trace, dir string, n int) (*raceTarget, error) {
 }
 
 // RunRaceProgram executes the client programs of t with real goroutines.
+// ErrRaceHang is returned when the client programs do not finish (real-time watchdog).
+var ErrRaceHang = fmt.Errorf("race program did not finish (deadlock?)")
+
 func RunRaceProgram(t *Trace, dir string, n int) error {
-	sim.CurrentFS = nil
-	sim.SetScheduler(nil)
 	rt, err := openRaceTarget(t, dir, n)
 	if err != nil {
 		return err
@@ -165,12 +170,14 @@ func RunRaceProgram(t *Trace, dir string, n int) error {
 	go func() { wg.Wait(); close(done) }()
 	select {
 	case <-done:
-	case <-time.After(60 * time.Second):
-		return fmt.Errorf("race program did not finish within 60s (real time)")
+	case <-time.After(raceHangTimeout):
+		return ErrRaceHang
 	}
 	rt.finalize()
 	return nil
 }
+
+var raceHangTimeout = 30 * time.Second
 
 var raceFrame = regexp.MustCompile(`^\s+(github\.com/ipld/go-car\S+)\(\)\s*$`)
 
@@ -189,13 +196,22 @@ func ParseRaceLog(text string) []string {
 		sc.Buffer(make([]byte, 1<<20), 1<<20)
 		inAccess := false
 		got := false
+		top := false
+		harnessAccess := false
 		for sc.Scan() {
 			line := sc.Text()
 			tl := strings.TrimSpace(line)
 			if strings.HasPrefix(tl, "Read at") || strings.HasPrefix(tl, "Write at") || strings.HasPrefix(tl, "Previous read at") || strings.HasPrefix(tl, "Previous write at") ||
 				strings.HasPrefix(tl, "Atomic") || strings.HasPrefix(tl, "Previous atomic") {
-				inAccess, got = true, false
+				inAccess, got, top = true, false, true
 				continue
+			}
+			if inAccess && top && tl != "" && !strings.HasPrefix(tl, "/") {
+				// the innermost frame of an access: a race ON a harness/simulator variable is not go-car's
+				if strings.HasPrefix(tl, "verif/") {
+					harnessAccess = true
+				}
+				top = false
 			}
 			if strings.HasPrefix(tl, "Goroutine ") {
 				inAccess = false
@@ -211,8 +227,8 @@ func ParseRaceLog(text string) []string {
 				}
 			}
 		}
-		if len(firsts) == 0 {
-			continue // no go-car frame: not ours to report
+		if len(firsts) == 0 || harnessAccess {
+			continue // no go-car frame, or the racing access is to a harness variable: not ours to report
 		}
 		sort.Strings(firsts)
 		sigs = append(sigs, "race/data-race/"+strings.Join(firsts, "|"))
@@ -223,6 +239,11 @@ func ParseRaceLog(text string) []string {
 // RaceWorker runs programs [shard, shard+nshard, ...) and reports races found
 // (attributed to the program during which the race log grew).
 func RaceWorker(seed uint64, tier string, shard, nshard int, out string) int {
+	sim.CurrentFS = nil
+	sim.SetScheduler(nil)
+	if tier == "quick" {
+		raceHangTimeout = 12 * time.Second
+	}
 	dir := filepath.Join(scratchDir(), "tmp")
 	os.MkdirAll(dir, 0o755)
 	logBase := os.Getenv("VERIF_RACE_LOG")
@@ -247,12 +268,30 @@ func RaceWorker(seed uint64, tier string, shard, nshard int, out string) int {
 		t := GenC08(seed, run)
 		t.Engine = "race"
 		st.Runs++
+		hung := false
 		for k := 0; k < reps; k++ {
 			st.Evals++
 			if err := RunRaceProgram(t, dir, run); err != nil {
+				if err == ErrRaceHang {
+					// confirm once with fresh goroutines and a fresh store before reporting
+					if err2 := RunRaceProgram(t, dir, run); err2 == ErrRaceHang {
+						hung = true
+						break
+					}
+				}
 				st.Inconclusive++
 				fmt.Fprintln(os.Stderr, "race:", err)
 			}
+		}
+		if hung {
+			sig := "race/hang/" + t.Sched.Target
+			if f := knownSig(findings, "C08", sig); f == nil {
+				vt := t.Clone()
+				vt.Sig = sig
+				vt.What = fmt.Sprintf("with real goroutines and real mutexes the client programs did not finish within %v, twice in a row (deadlock)", raceHangTimeout)
+				rep.Violations = append(rep.Violations, vt)
+			}
+			break // goroutines of the hung programs are still stuck: this process is done
 		}
 		nops := 0
 		for _, c := range t.Sched.Clients {
@@ -315,6 +354,17 @@ func firstRaceBlock(text string) string {
 
 // RaceReplay re-runs the workload of a race trace up to 20 times and reports whether a race shows.
 func RaceReplay(t *Trace) (string, string) {
+	sim.CurrentFS = nil
+	sim.SetScheduler(nil)
+	if strings.HasPrefix(t.Sig, "race/hang/") {
+		raceHangTimeout = 5 * time.Second
+		for k := 0; k < 40; k++ { // the hang needs the runtime to produce the interleaving: try repeatedly
+			if RunRaceProgram(t, filepath.Join(scratchDir(), "tmp"), k) == ErrRaceHang {
+				return t.Sig, fmt.Sprintf("the client programs did not finish within %v (deadlock), attempt %d", raceHangTimeout, k+1)
+			}
+		}
+		return "", ""
+	}
 	dir := filepath.Join(scratchDir(), "tmp")
 	os.MkdirAll(dir, 0o755)
 	logFile := fmt.Sprintf("%s.%d", os.Getenv("VERIF_RACE_LOG"), os.Getpid())
